@@ -35,6 +35,7 @@ type gm struct {
 	ext         map[string]string   // pkg.Name -> integer value of constants of imported modules (module cache)
 	scopes      []map[string]string // source name -> name in the embedding (a shadowing declaration is renamed)
 	nshadow     int
+	foreign     map[string]bool   // fields of the receiver that hold objects of other types (their methods are external calls)
 	namedInts   map[string]string // package-level `type T <integer type>`: a conversion T(x) is the conversion to the underlying type
 }
 
@@ -342,7 +343,13 @@ func (g *gm) call(c *ast.CallExpr) string {
 			}
 			return "(.call " + strconv.Quote(q) + " " + g.args(c) + ")"
 		}
-		return "(.mcall " + g.expr(fn.X) + " " + strconv.Quote(fn.Sel.Name) + " " + g.args(c) + ")"
+		name := fn.Sel.Name
+		if sx, ok := fn.X.(*ast.SelectorExpr); ok && g.foreign[sx.Sel.Name] {
+			// a method of ANOTHER type reached through a field (`a.metadata.DeleteStream`): never a function of this unit,
+			// even when a function of this unit has the same method name
+			name = sx.Sel.Name + "." + name
+		}
+		return "(.mcall " + g.expr(fn.X) + " " + strconv.Quote(name) + " " + g.args(c) + ")"
 	case *ast.ArrayType, *ast.ParenExpr, *ast.FuncLit:
 		return "(.call " + g.bad("?call", c) + " [])"
 	}
@@ -408,9 +415,20 @@ func (g *gm) stmt(s ast.Stmt) []string {
 			}
 			return []string{"(.assign " + g.exprs(x.Lhs) + " " + g.exprs(x.Rhs) + ")"}
 		case token.DEFINE:
-			rhs := g.exprs(x.Rhs)
+			rhs := ""
 			if ix, ok := commaOk(x); ok {
 				rhs = "[(.call \"mapLookup2\" [" + g.expr(ix.X) + ", " + g.expr(ix.Index) + "])]"
+			}
+			if len(x.Lhs) == 2 && len(x.Rhs) == 1 {
+				// `s, ok := v.(string)`: the comma-ok type assertion to string (never panics)
+				if ta, ok := x.Rhs[0].(*ast.TypeAssertExpr); ok {
+					if id, ok := ta.Type.(*ast.Ident); ok && id.Name == "string" {
+						rhs = "[(.call \"assertString2\" [" + g.expr(ta.X) + "])]"
+					}
+				}
+			}
+			if rhs == "" {
+				rhs = g.exprs(x.Rhs)
 			}
 			return []string{"(.assign " + g.lhsDefine(x.Lhs) + " " + rhs + ")"}
 		default:
@@ -663,7 +681,7 @@ func genGoMini(module string, order []string, units map[string][]string, constFi
 				names = append(names, "("+strconv.Quote(short)+", "+def+")")
 				continue
 			}
-			g := &gm{f: f, consts: consts, pkgs: importedPkgs(f), cur: fnName, ext: externalConsts(f), namedInts: named}
+			g := &gm{f: f, consts: consts, pkgs: importedPkgs(f), cur: fnName, ext: externalConsts(f), namedInts: named, foreign: gmForeign[module]}
 			g.push()
 			recv := "none"
 			if fd.Recv != nil && len(fd.Recv.List) > 0 && len(fd.Recv.List[0].Names) > 0 {
@@ -707,6 +725,9 @@ func genGoMini(module string, order []string, units map[string][]string, constFi
 	facts["gomini_"+module+"_unsupported"] = allUnsupported
 	return b.String()
 }
+
+// gmForeign: per unit, the receiver fields whose methods belong to other types.
+var gmForeign = map[string]map[string]bool{"GoAuthz": {"metadata": true, "cursors": true}}
 
 // genGoMiniAll: the translated units, one generated module per package area.
 func genGoMiniAll() []*leanFile {
@@ -760,6 +781,14 @@ func genGoMiniAll() []*leanFile {
 		[]string{sv + "partition.go"},
 		map[string][]string{sv + "partition.go": {"partition.Subscribe", "partition.removeGroupSubscriber"}},
 		[]string{sv + "partition.go"})})
+	out = append(out, &leanFile{name: "GoAuthz", raw: genGoMini("GoAuthz",
+		[]string{sv + "api.go"},
+		map[string][]string{sv + "api.go": {
+			"apiServer.ensureAuthorizationPermission", "apiServer.CreateStream", "apiServer.DeleteStream", "apiServer.PauseStream",
+			"apiServer.SetStreamReadonly", "apiServer.FetchMetadata", "apiServer.FetchPartitionMetadata", "apiServer.Publish",
+			"apiServer.publishInternal", "apiServer.PublishToSubject", "apiServer.SetCursor", "apiServer.FetchCursor",
+			"apiServer.JoinConsumerGroup", "apiServer.LeaveConsumerGroup"}},
+		[]string{sv + "api.go"})})
 	pr := "server/protocol/"
 	out = append(out, &leanFile{name: "GoEnvelope", raw: genGoMini("GoEnvelope",
 		[]string{pr + "envelope.go"},
